@@ -63,8 +63,16 @@ auto impl(type_list<Result...> /*unused*/, Senders&&... senders) {
                    return just_void_or_done(false);
                  };
 
+                 // a sender that completes with done first also decides the
+                 // result: latch, so that a lagging value is discarded
+                 auto latch_done = [&onceFlag]() {
+                   std::call_once(onceFlag, []() noexcept {});
+                   return just_done();
+                 };
+
                  return when_all(
-                            (std::move(senders) | let_value(store_result))...) |
+                            (std::move(senders) | let_done(latch_done) |
+                             let_value(store_result))...) |
                      let_done([&optResult]() noexcept {
                           return just_void_or_done(optResult.has_value());
                         }) |
